@@ -52,6 +52,27 @@ pub(crate) async fn validate_bands(
             monitor.error(err);
             continue 'band;
         };
+        // A complete band records how many index hunks it has, so that a missing one
+        // can be noticed.
+        match band.get_info().await {
+            Ok(info) => {
+                if let Some(expected) = info.index_hunk_count {
+                    match band.index().hunks_available().await {
+                        Ok(hunks) => {
+                            if !hunks.iter().copied().map(u64::from).eq(0..expected) {
+                                monitor.error(Error::InvalidMetadata {
+                                    details: format!(
+                                        "Band {band_id} should have {expected} index hunks numbered from 0 but has {hunks:?}"
+                                    ),
+                                });
+                            }
+                        }
+                        Err(err) => monitor.error(err),
+                    }
+                }
+            }
+            Err(err) => monitor.error(err),
+        }
         let st = match archive
             .open_stored_tree(BandSelectionPolicy::Specified(*band_id))
             .await
